@@ -5,6 +5,7 @@ import CryoCat.Lemmas.C08_Merge
 import CryoCat.Lemmas.C08_History
 import CryoCat.Lemmas.C08_Order
 import CryoCat.Lemmas.C08_CheckHistory
+import CryoCat.Lemmas.C08_MergeAccepts
 /-! C08 — particle-list set algebra and identifier discipline: property theorems about the
 executable model `Model/C08.lean` (the definitions the driver runs). Only theorems and
 non-vacuity examples; helper lemmas live in `Lemmas/C08*.lean`. -/
@@ -652,6 +653,11 @@ theorem check_subset_accepts_model (f : Field) (vs : List α) (l : Motl α) :
     checkSubset eqv f vs l (subset f vs l) = true :=
   (checkSubset_iff eqv heqv f vs l _).2 ((subsetOK_iff eqv heqv f vs l _).2 (subset_spec f vs l))
 
+/-- for the subset the clause pins the table down: accepted exactly when it IS the model's output -/
+theorem check_subset_iff_model (f : Field) (vs : List α) (l out : Motl α) :
+    checkSubset eqv f vs l out = true ↔ out = subset f vs l := by
+  rw [checkSubset_iff eqv heqv, subsetOK_iff eqv heqv, subset_spec]
+
 theorem check_remove_sound (f : Field) (vs : List α) (l out : Motl α) (h : checkRemove eqv f vs l out = true) :
     RemoveOK f vs l out := (checkRemove_iff eqv heqv f vs l out).1 h
 
@@ -737,6 +743,28 @@ theorem check_merge_renumber_complete (fill : α → α) (nat : Nat → α) (ins
     (h : MergeRenumberOK fill nat ins out) : checkMergeRenumber eqv fill nat ins out = true :=
   (checkMergeRenumber_iff eqv heqv fill nat ins out).2 h
 
+/-- **merge_and_renumber: the model's own output is accepted — for EVERY list of tagged inputs**
+(empty inputs, inputs handed over as bare DataFrames which `Motl.load` fills, any object numbers):
+the output cuts into one block per input, each a faithful copy of its input with ONE object-number
+offset, no two blocks share an object number, subtomogram numbers are 1..N.  So the clauses the checker
+decides are satisfiable by the documented loop, whatever the inputs. -/
+theorem check_merge_renumber_accepts_model (fill : α → α) (nat : Nat → α) (ins : List (Bool × Motl α)) :
+    checkMergeRenumber eqv fill nat ins (mergeRenumber nat (ins.map (loaded fill))) = true := by
+  apply check_merge_renumber_complete eqv heqv
+  obtain ⟨bs, e, hb, hd⟩ := mergeRenumber_blocks fill nat 1 ins
+  refine ⟨bs, ?_, hb, hd, ?_⟩
+  · unfold mergeRenumber renumberParticles
+    rw [merge_documented.1, renumber_particles_documented.1]
+    exact e
+  · rw [mergeRenumber_ids, loaded_flatten_length]
+
+omit heqv in
+/-- hence the clauses of `merge_and_renumber` hold for the model's output, whatever the inputs -/
+theorem mergeRenumber_model_ok (fill : α → α) (nat : Nat → α) (ins : List (Bool × Motl α)) :
+    MergeRenumberOK fill nat ins (mergeRenumber nat (ins.map (loaded fill))) :=
+  check_merge_renumber_sound (fun a b => decide (a = b)) (fun a b => by simp) fill nat ins _
+    (check_merge_renumber_accepts_model (fun a b => decide (a = b)) (fun a b => by simp) fill nat ins)
+
 omit heqv in
 /-- one offset per block keeps the grouping inside the block (equal stays equal, different stays
 different); `g` = what loading did to the input's object numbers (identity for a `Motl` input) -/
@@ -765,6 +793,25 @@ theorem check_merge_dropdup_complete (fill : α → α) (ins : List (Bool × Mot
     (h : MergeDropDupOK fill ins out) : ∃ cs, checkMergeDropDup eqv fill cs ins out = true :=
   (checkMergeDropDup_iff eqv heqv fill ins out).2 h
 
+/-- **merge_and_drop_duplicates: the model's own output is accepted — for EVERY list of tagged inputs**
+(empty inputs, bare DataFrames, any object numbers), with the offsets the model's own loop used
+(`mergeOffsets`, 0 for an empty or unshifted input) as the certificate. -/
+theorem check_merge_dropdup_accepts_model (fill : α → α) (ins : List (Bool × Motl α)) :
+    checkMergeDropDup eqv fill (mergeOffsets Cmp.le 0 (ins.map (loaded fill))) ins
+      (mergeDropDup ddDefaultDup ddDefaultDec ddDefaultAscending (ins.map (loaded fill))) = true := by
+  rw [checkMergeDropDup_cs_iff eqv heqv, mergeDropDup_spec]
+  obtain ⟨h1, h2, h3, h4⟩ := dropDup_spec Field.subtomo_id Field.score false
+    (mergeBlocks Cmp.le 0 (ins.map (loaded fill))).flatten
+  exact mergeDropDup_clauses fill ins _ h1 h2 h3
+    (fun q hq p hp e => by have := h4 q hq p hp e; simpa using this)
+
+omit heqv in
+/-- hence the clauses of `merge_and_drop_duplicates` hold for the model's output, whatever the inputs -/
+theorem mergeDropDup_model_ok (fill : α → α) (ins : List (Bool × Motl α)) :
+    MergeDropDupOK fill ins (mergeDropDup ddDefaultDup ddDefaultDec ddDefaultAscending (ins.map (loaded fill))) :=
+  check_merge_dropdup_sound (fun a b => decide (a = b)) (fun a b => by simp) fill _ ins _
+    (check_merge_dropdup_accepts_model (fun a b => decide (a = b)) (fun a b => by simp) fill ins)
+
 theorem check_renumber_particles_sound (nat : Nat → α) (l out : Motl α)
     (h : checkRenumberParticles eqv nat l out = true) : RenumberParticlesOK nat l out :=
   (checkRenumberParticles_iff eqv heqv nat l out).1 h
@@ -776,6 +823,17 @@ theorem check_renumber_particles_complete (nat : Nat → α) (l out : Motl α)
 theorem check_renumber_particles_accepts_model (nat : Nat → α) (l : Motl α) :
     checkRenumberParticles eqv nat l (renumberParticles nat l) = true :=
   check_renumber_particles_complete eqv heqv nat l _ (renumberParticles_spec nat l)
+
+/-- the clauses of `renumber_particles` pin the table down: accepted exactly when it IS the model's output -/
+theorem check_renumber_particles_iff_model (nat : Nat → α) (l out : Motl α) :
+    checkRenumberParticles eqv nat l out = true ↔ out = renumberParticles nat l := by
+  constructor
+  · intro h
+    obtain ⟨h1, h2⟩ := check_renumber_particles_sound eqv heqv nat l out h
+    obtain ⟨m1, m2⟩ := renumberParticles_spec nat l
+    exact renumbered_unique l out _ h2 m2 (h1.trans m1.symm)
+  · rintro rfl
+    exact check_renumber_particles_accepts_model eqv heqv nat l
 
 theorem check_renumber_objects_sound (nat : Nat → α) (start : α) (l out : Motl α)
     (h : checkRenumberObjects eqv nat start l out = true) : RenumberObjectsOK nat start l out :=
@@ -812,10 +870,91 @@ theorem check_renumber_objects_accepts_model (nat : Nat → α) (start : α) (l 
   · intro i hi
     obtain ⟨p, hp, e⟩ := h4 i hi
     exact ⟨_, List.mem_map.2 ⟨p, hp, rfl⟩, by rw [← e]; exact Particle.get_set_same _ Field.object_id _⟩
+
+/-- **one step of the model is accepted**: whatever the operation, its arguments and the current table,
+`checkStep` accepts what the model shows (`modelObs`: its table, for a split its parts, for
+`merge_and_drop_duplicates` its own offsets as the certificate).  `hfill`: filling is idempotent;
+`hnat`: different naturals are different numbers. -/
+theorem check_step_accepts_model (fill : α → α) (nat : Nat → α) (hfill : ∀ v, fill (fill v) = fill v)
+    (hnat : ∀ i j, nat i = nat j → i = j) (op : Op α) (l : Motl α) :
+    checkStep eqv fill nat op l (modelObs fill nat op l) = true := by
+  unfold checkStep
+  cases op with
+  | subset f vs =>
+    simp only [stepClauses, modelObs, step, List.all_cons, List.all_nil, Bool.and_true]
+    exact check_subset_accepts_model eqv heqv f vs l
+  | remove f vs => exact check_remove_accepts_model eqv heqv f vs l
+  | splitPick f i =>
+    simp only [stepClauses, modelObs, step, List.all_append, Bool.and_eq_true, List.all_cons, List.all_nil, Bool.and_true]
+    exact ⟨check_split_accepts_model eqv heqv f l, (listEqB_iff eqv heqv _ _).2 rfl⟩
+  | intersect f o => exact check_intersect_accepts_model eqv heqv fill hfill f l o
+  | dropDup dup dec asc => exact check_dropdup_accepts_model eqv heqv dup dec asc l
+  | mergeRenumber b a s =>
+    show checkMergeRenumber eqv fill nat (rawInputs b a s l) (mergeRenumber nat (mergeInputs fill b a s l)) = true
+    rw [mergeInputs_eq_map]
+    exact check_merge_renumber_accepts_model eqv heqv fill nat _
+  | mergeDropDup b a s =>
+    have hc : checkMergeDropDup eqv fill (mergeOffsets mergeDropDupShiftCmp 0 (mergeInputs fill b a s l))
+        (rawInputs b a s l) (step fill nat (.mergeDropDup b a s) l) = true := by
+      simp only [step]
+      rw [merge_documented.2.1, mergeInputs_eq_map]
+      exact check_merge_dropdup_accepts_model eqv heqv fill _
+    simp only [stepClauses, modelObs]
+    rw [List.find?_cons_of_pos (p := fun cs => checkMergeDropDup eqv fill cs (rawInputs b a s l)
+      (step fill nat (.mergeDropDup b a s) l)) (l := []) hc]
+    rfl
+  | renumberParticles => exact check_renumber_particles_accepts_model eqv heqv nat l
+  | renumberObjects start =>
+    exact check_renumber_objects_accepts_model eqv heqv nat start l (fun i j h => hnat i j (add_left_cancel h))
+
+omit heqv in
+theorem modelObs_out (fill : α → α) (nat : Nat → α) (op : Op α) (l : Motl α) :
+    (modelObs fill nat op l).out = step fill nat op l := by cases op <;> rfl
+
+/-- **`checkRun` accepts the model's whole run**: for every history (any length, any operations and
+arguments) and every initial table, the checkers accept the model's own observation chain, every step
+judged against the model's previous table. -/
+theorem check_run_accepts_model (fill : α → α) (nat : Nat → α) (hfill : ∀ v, fill (fill v) = fill v)
+    (hnat : ∀ i j, nat i = nat j → i = j) (ops : List (Op α)) (l : Motl α) :
+    checkRun eqv fill nat (modelChain fill nat ops l) l = true := by
+  induction ops generalizing l with
+  | nil => rfl
+  | cons op ops ih =>
+    simp only [modelChain, checkRun, Bool.and_eq_true]
+    refine ⟨check_step_accepts_model eqv heqv fill nat hfill hnat op l, ?_⟩
+    rw [modelObs_out]
+    exact ih _
+
+omit heqv in
+/-- the model's observation chain ends in the model's run, and records exactly the operations run -/
+theorem modelChain_last (fill : α → α) (nat : Nat → α) (ops : List (Op α)) (l : Motl α) :
+    lastOut (modelChain fill nat ops l) l = run fill nat ops l
+    ∧ (modelChain fill nat ops l).map (·.1) = ops := by
+  induction ops generalizing l with
+  | nil => exact ⟨rfl, rfl⟩
+  | cons op ops ih =>
+    obtain ⟨h1, h2⟩ := ih (step fill nat op l)
+    refine ⟨?_, ?_⟩
+    · simp only [modelChain, lastOut, modelObs_out]
+      rw [h1]; rfl
+    · simp only [modelChain, List.map_cons, h2]
+
 /-- **one accepted step** establishes the clauses of its operation for the REAL tables … -/
 theorem check_step_sound (fill : α → α) (nat : Nat → α) (op : Op α) (l : Motl α) (o : Obs α)
     (h : checkStep eqv fill nat op l o = true) : StepOK fill nat op l o :=
   checkStep_sound eqv heqv fill nat op l o h
+
+/-- **`checkStep` decides exactly the clauses of its operation** — sound AND complete for every operation
+(for `merge_and_drop_duplicates`: complete as soon as a valid certificate is among the hints, `HintOK`) -/
+theorem check_step_iff (fill : α → α) (nat : Nat → α) (op : Op α) (l : Motl α) (o : Obs α) :
+    checkStep eqv fill nat op l o = true ↔ StepOK fill nat op l o ∧ HintOK eqv fill op l o :=
+  checkStep_iff eqv heqv fill nat op l o
+
+/-- **`checkRun` decides exactly that every step of the observed history meets its clauses**, each
+judged against the REAL previous table (`RunOK`) — nothing less (soundness), nothing more (completeness) -/
+theorem check_run_iff (fill : α → α) (nat : Nat → α) (steps : List (Op α × Obs α)) (l : Motl α) :
+    checkRun eqv fill nat steps l = true ↔ RunOK eqv fill nat steps l :=
+  checkRun_iff eqv heqv fill nat steps l
 
 /-- … and **an accepted observed history** (every step judged against the REAL previous table)
 establishes the history clause for the REAL last table: each of its rows is a row that entered the
@@ -841,6 +980,29 @@ theorem check_history_rows_literal (fill : α → α) (nat : Nat → α) (hfill 
   exact hu
 
 end checkers
+
+/-! ### the model-level history theorem as a corollary of the CHECKER theorems -/
+section viacheckers
+variable {α : Type} [CommRing α] [LinearOrder α] [IsStrictOrderedRing α]
+
+/-- `history_rows` obtained WITHOUT the model-level induction `step_rows`: the checkers accept the
+model's own observation chain (`check_run_accepts_model`, which rests on the per-operation spec
+theorems), and an accepted chain has the history property (`check_history_rows`).  So the clause
+Props the checkers decide are at least as strong as the model-level invariant. -/
+theorem history_rows_via_checkers (fill : α → α) (nat : Nat → α) (hfill : ∀ v, fill (fill v) = fill v)
+    (hnat : ∀ i j, nat i = nat j → i = j) (ops : List (Op α)) (l : Motl α) :
+    ∀ q ∈ run fill nat ops l, ∃ p ∈ l ++ ops.flatMap Op.sources, Unchanged (histFill fill ops) p q := by
+  have heqv : ∀ a b : α, (fun a b => decide (a = b)) a b = true ↔ a = b := fun a b => by simp
+  have h := check_history_rows _ heqv fill nat hfill (modelChain fill nat ops l) l
+    (check_run_accepts_model _ heqv fill nat hfill hnat ops l)
+  have hm := modelChain_last fill nat ops l
+  have hs : (modelChain fill nat ops l).flatMap (fun s => s.1.sources) = ops.flatMap Op.sources := by
+    conv => rhs; rw [← hm.2]
+    rw [List.flatMap_map]
+  rw [hm.1, hm.2, hs] at h
+  exact h
+
+end viacheckers
 
 /-! ### identifiers stay duplicate-free after merging with renumbering -/
 section nodup
@@ -906,6 +1068,79 @@ theorem history_schema (fill : α → α) (nat : Nat → α) (ops : List (Op α)
   refine ⟨by simp [Particle.toList, Field.all_length], ?_⟩
   rw [List.map_map, columns_documented]
   rfl
+
+/-! #### the same discipline for the REAL tables: decided by the checkers -/
+section checked_nodup
+variable (eqv : α → α → Bool) (heqv : ∀ a b, eqv a b = true ↔ a = b)
+include heqv
+
+/-- an ACCEPTED selection step (subset with pairwise different values, remove, a split part,
+drop_duplicates) keeps any duplicate-free column of the REAL table duplicate-free -/
+theorem check_selection_step_keeps_nodup (fill : α → α) (nat : Nat → α) (g : Field) (op : Op α)
+    (hop : op.isNodupSelection) (l : Motl α) (o : Obs α) (h : checkStep eqv fill nat op l o = true)
+    (hl : (l.map (·.get g)).Nodup) : (o.out.map (·.get g)).Nodup := by
+  have hs := check_step_sound eqv heqv fill nat op l o h
+  cases op with
+  | subset f vs =>
+    have hc : checkSubset eqv f vs l o.out = true := by
+      simpa only [checkStep, stepClauses, List.all_cons, List.all_nil, Bool.and_true] using h
+    rw [(check_subset_iff_model eqv heqv f vs l o.out).1 hc]
+    exact selection_step_keeps_nodup fill nat g (.subset f vs) hop l hl
+  | remove f vs =>
+    have h' : RemoveOK f vs l o.out := hs
+    have := (h'.1.map (·.get g)).nodup_iff.2 hl
+    rw [List.map_append] at this
+    exact (List.nodup_append.1 this).1
+  | splitPick f i =>
+    have h' : SplitOK f l o.parts ∧ o.out = o.parts.getD i [] := hs
+    rw [h'.2, List.getD_eq_getElem?_getD]
+    cases hi : o.parts[i]? with
+    | none => simp
+    | some part =>
+      have hflat := (h'.1.1.map (·.get g)).nodup_iff.2 hl
+      exact hflat.sublist ((List.sublist_flatten_of_mem (List.mem_of_getElem? hi)).map _)
+  | dropDup dup dec asc =>
+    have h' : DropDupOK (fun v => v) dup dec asc l o.out := hs
+    have hsub : ∀ q ∈ o.out, q ∈ l := by
+      intro q hq
+      obtain ⟨p, hp, hsame⟩ := h'.2.1 q hq
+      have : q = p := Particle.ext_get (fun f => (hsame f).elim id id)
+      exact this ▸ hp
+    exact nodup_map_of_subset _ _ o.out l h'.1 hsub hl
+  | intersect f o => exact absurd hop (by simp [Op.isNodupSelection])
+  | mergeRenumber b a s => exact absurd hop (by simp [Op.isNodupSelection])
+  | mergeDropDup b a s => exact absurd hop (by simp [Op.isNodupSelection])
+  | renumberParticles => exact absurd hop (by simp [Op.isNodupSelection])
+  | renumberObjects start => exact absurd hop (by simp [Op.isNodupSelection])
+
+theorem check_selection_history_keeps_nodup (fill : α → α) (nat : Nat → α) (g : Field) (steps : List (Op α × Obs α))
+    (hsel : ∀ s ∈ steps, s.1.isNodupSelection) (l : Motl α) (h : checkRun eqv fill nat steps l = true)
+    (hl : (l.map (·.get g)).Nodup) : ((lastOut steps l).map (·.get g)).Nodup := by
+  induction steps generalizing l with
+  | nil => exact hl
+  | cons s steps ih =>
+    obtain ⟨op, o⟩ := s
+    simp only [checkRun, Bool.and_eq_true] at h
+    exact ih (fun s' hs' => hsel s' (List.mem_cons_of_mem _ hs')) o.out h.2
+      (check_selection_step_keeps_nodup eqv heqv fill nat g op (hsel (op, o) (by simp)) l o h.1 hl)
+
+/-- **For the REAL tables: subtomogram numbers after an accepted `merge_and_renumber` followed by ANY
+accepted sequence of selections are pairwise different** — whatever the code did inside, if the
+checkers accepted every step then no two surviving rows share a subtomogram number. -/
+theorem check_merge_renumber_then_selections_nodup (fill : α → α) (nat : Nat → α) (hnat : ∀ i j, nat i = nat j → i = j)
+    (b a : List (Bool × Motl α)) (s : Bool) (o : Obs α) (steps : List (Op α × Obs α))
+    (hsel : ∀ s ∈ steps, s.1.isNodupSelection) (l : Motl α)
+    (h : checkRun eqv fill nat ((Op.mergeRenumber b a s, o) :: steps) l = true) :
+    ((lastOut ((Op.mergeRenumber b a s, o) :: steps) l).map (·.subtomo_id)).Nodup := by
+  simp only [checkRun, Bool.and_eq_true] at h
+  have hm : MergeRenumberOK fill nat (rawInputs b a s l) o.out := check_step_sound eqv heqv fill nat _ l o h.1
+  obtain ⟨_, _, _, _, hids⟩ := hm
+  refine check_selection_history_keeps_nodup eqv heqv fill nat Field.subtomo_id steps hsel o.out h.2 ?_
+  show (o.out.map (·.subtomo_id)).Nodup
+  rw [hids, List.Nodup, List.pairwise_map]
+  exact (List.nodup_range).imp (fun {i j} hij e => hij (by have := hnat _ _ e; omega))
+
+end checked_nodup
 
 end nodup
 
@@ -1003,5 +1238,26 @@ example : checkMergeRenumber (fun a b : Int => a == b) (fun v => v) Int.ofNat
 example : checkMergeRenumber (fun a b : Int => a == b) (fun v => v) Int.ofNat
     [(false, [Particle.ofFn (fun _ => (1 : Int))]), (false, [Particle.ofFn (fun _ => (1 : Int))])]
     [(Particle.ofFn (fun _ => (1 : Int))), (Particle.ofFn (fun _ => (1 : Int))).set .subtomo_id 2] = false := by decide
+/-- `merge_and_drop_duplicates`, second input a bare DataFrame with a missing object number (−1, filled to 0
+on loading): with colliding offsets REJECTED, with the loop's offsets (`mergeOffsets`) accepted -/
+example : checkMergeDropDup (fun a b : Int => a == b) exFill [0, 2]
+    [(false, [exRow 1 1 1 5, exRow 2 1 2 5]), (true, [exRow 1 1 1 9, exRow 3 1 (-1) 5])]
+    [exRow 1 1 3 9, exRow 2 1 2 5, exRow 3 1 2 5] = false := by decide
+example : checkMergeDropDup (fun a b : Int => a == b) exFill [0, 3]
+    [(false, [exRow 1 1 1 5, exRow 2 1 2 5]), (true, [exRow 1 1 1 9, exRow 3 1 (-1) 5])]
+    [exRow 1 1 4 9, exRow 2 1 2 5, exRow 3 1 3 5] = true := by decide
+example : mergeOffsets Cmp.le (0 : Int) [[exRow 1 1 1 5, exRow 2 1 2 5], [], [exRow 1 1 1 9, exRow 3 1 0 5]] = [0, 0, 3] := by decide
+/-- hypotheses of `check_run_accepts_model` are satisfiable, and its conclusion on a concrete history
+(a merge with a DataFrame input and an empty input, subset, split, intersection, removal, renumbering) -/
+example : ∀ v : Int, exFill (exFill v) = exFill v := by intro v; unfold exFill; by_cases h : v = -1 <;> simp [h]
+example : checkRun (fun a b : Int => a == b) exFill Int.ofNat
+    (modelChain exFill Int.ofNat
+      [Op.mergeRenumber [(true, [exRow 5 1 1 (-1)])] [(false, [])] false, Op.subset .tomo_id [2, 1], Op.splitPick .tomo_id 1,
+       Op.intersect .subtomo_id [exRow 1 2 3 4], Op.remove .tomo_id [3], .renumberParticles]
+      [exRow 9 1 1 3, exRow 9 2 1 4])
+    [exRow 9 1 1 3, exRow 9 2 1 4] = true := by decide
+/-- `hsel` of `check_selection_history_keeps_nodup` -/
+example : ∀ s ∈ [((Op.remove Field.tomo_id [(1 : Int)]), ({ out := [] } : Obs Int))], s.1.isNodupSelection := by
+  intro s hs; simp only [List.mem_singleton] at hs; subst hs; simp [Op.isNodupSelection]
 
 end CryoCat.C08
